@@ -266,7 +266,6 @@ class Conn:
         self.rst_done = False
         self.resp_done: list[bytes] = []
         self.resp_pending: bytes | None = None
-        self.deadlines: list[float] = []  # absolute deadlines of the handler's yielded timeouts
         self.gen_index = 0
         self.disconnections = 0
 
@@ -290,13 +289,6 @@ class Conn:
         self.gen_index += 1
         return n
 
-    def had_tie(self) -> bool:
-        """a yielded timeout expired at exactly the virtual time at which request bytes became visible on the socket"""
-        if self.srv is None:
-            return False
-        times = {t for t, _ in self.srv.rx_pipe.visible_log}
-        return any(d in times for d in self.deadlines)
-
     def peer_gone(self) -> bool:
         p = self.srv.rx_pipe if self.srv is not None else None
         return self.rst_done or (p is not None and (p.fin_visible or p.rst))
@@ -315,22 +307,12 @@ class Ctx:
         self.stopping = False
         self.connecting: Conn | None = None
         self.violation: Violation | None = None
-        self.avoid_d5 = bool(getattr(world, "avoid_known", True)) and sc["buffered"]
 
     def key(self, clause: str, site: str = "") -> str:
         return f"C15/{self.name}/{self.path}/{clause}" + (f"/{site}" if site else "")
 
-    def d5_site(self, conn: "Conn | None", site: str = "") -> str:
-        """Known finding D5 (recv_into waiter cancelled in the iteration in which its bytes arrived): input class =
-        buffer-filling path + a yielded timeout expiring exactly when request bytes arrive.  Everything observed on
-        such a connection after the tie carries the site 'timeout-tie'."""
-        if conn is not None and self.sc["buffered"] and conn.had_tie():
-            return "timeout-tie"
-        return site
-
     def flag(self, clause: str, message: str, site: str = "", conn: "Conn | None" = None) -> None:
         if self.violation is None:
-            site = self.d5_site(conn, site)
             self.violation = Violation(clause, message, key=self.key(clause, site))
             self.world.log("violation", clause, site)
 
@@ -360,11 +342,6 @@ class Ctx:
                 i = len(conn.items)
                 T = conn.timeout_for(i)
                 t0 = world.now
-                if T is not None:
-                    frac = ((t0 + T) * 64) % 1
-                    if self.avoid_d5 and (frac < 0.25 or frac > 0.75):
-                        T += G / 2  # keep the deadline off the arrival grid: no exact tie (known finding D5)
-                    conn.deadlines.append(t0 + T)
                 if conn.handler_end is not None:
                     self.flag("request-after-close", f"{conn.label}: handler generator {kind!r} is asked for a request after the handler ended the connection {conn.handler_end}", conn=conn)
                 try:
@@ -641,16 +618,15 @@ def _final_checks(ctx: Ctx) -> None:
     world = ctx.world
     for c in ctx.conns:
         ref = c.ref
-        d5 = ctx.d5_site(c)
         desc = f"{c.label}: serializer={('line', 'json', 'b64json')[ctx.sc['fam']]} path={ctx.path} max_recv={ctx.sc['max_recv']} stream={c.sc['stream']!r} writes={[(t, len(d)) for t, d in c.sc['writes']]} end={c.sc['end']}@{c.sc['t_end']} plan={c.plan}"
         # 1. exactly once, in order
         for i, item in enumerate(c.items):
             if i >= len(ref) or not _same(item, ref[i]):
-                raise Violation("sequence", f"{desc}\n handler observed {c.items}\n reference        {ref}\n first difference at #{i}", key=ctx.key("sequence", d5))
+                raise Violation("sequence", f"{desc}\n handler observed {c.items}\n reference        {ref}\n first difference at #{i}", key=ctx.key("sequence"))
         # 2. completeness when the peer's FIN ended the connection
         handler_ended = c.handler_end is not None or c.handler_closed_at is not None
         if not handler_ended and c.sc["end"] == "fin" and len(c.items) != len(ref):
-            raise Violation("sequence-incomplete", f"{desc}\n the peer wrote {len(ref)} complete frames and then FIN; the handler did not end the connection but observed only {c.items}\n reference {ref}", key=ctx.key("sequence-incomplete", d5))
+            raise Violation("sequence-incomplete", f"{desc}\n the peer wrote {len(ref)} complete frames and then FIN; the handler did not end the connection but observed only {c.items}\n reference {ref}", key=ctx.key("sequence-incomplete"))
         if c.handler_end is not None and len(c.items) != c.handler_end[1]:
             raise Violation("request-after-close", f"{desc}\n handler ended the connection {c.handler_end} but observed {len(c.items)} requests", key=ctx.key("request-after-close"))
         # 3. the connection's socket ends closed
